@@ -70,6 +70,7 @@ class ProjectSettings:
     @sim_start.setter
     def sim_start(self, sim_start):
         self._sim_start = sim_start
+        self.sim_end = self.sim_end  # Call the setter function so that the end year remains a whole number of timesteps after the start year
 
     @sim_end.setter
     def sim_end(self, sim_end):
